@@ -160,6 +160,10 @@ func (builder *builder[E]) DivUnchecked(i1, i2 frontend.Variable) frontend.Varia
 		return builder.mulConstant(i1.(expr.Term[E]), c2)
 	}
 	if i1Constant {
+		if c1.IsZero() {
+			// 0 / i2 is 0 when i2 != 0, and the result is unconstrained when i2 == 0
+			return builder.cs.ToBigInt(c1)
+		}
 		res := builder.Inverse(i2)
 		return builder.mulConstant(res.(expr.Term[E]), c1)
 	}
